@@ -27,6 +27,7 @@ NoSc == [i \in 1..NExt |-> Absent]
 
 DefaultContent(i) == [p |-> TRUE, lines |-> <<"text of " \o EaExts[i].name, "  second line">>, nl |-> TRUE]
 
+BigLines == [i \in 1..620 |-> "line " \o ToString(i) \o " ........................"]     \* about 22 KB
 Forms == {"bang", "dollar"}
 FileKinds == Kinds \cap {"file", "zipfile"}
 ExtFor(k) == IF k \in {"file", "zipfile"} THEN "q1" ELSE ""
@@ -43,6 +44,8 @@ InitCase ==
                           [i \in 1..NExt |-> IF i = j THEN [p |-> TRUE, lines |-> ls, nl |-> b] ELSE Absent])
     \/ \E k \in FileKinds, e \in Exts, n \in Sizes, f \in Forms \cup {"plus"} : c = CaseOf("size", k, e, n, f, NoSc)
     \/ \E f \in Forms \cup {"plus"} : c = CaseOf("msg", "msg", "", 0, f, NoSc)
+    \/ \E k \in FileKinds, f \in Forms :        \* one sidecar beyond the 20 KB readlines() hint (Cap20K)
+          c = CaseOf("big", k, ExtFor(k), 6, f, [i \in 1..NExt |-> IF i = 1 THEN [p |-> TRUE, lines |-> BigLines, nl |-> TRUE] ELSE Absent])
 
 Stripped(k, e) == k \in {"file", "zipfile"} /\ B1_ExtStrip # "none" /\ MimeOf(e) # ""   \* UMN.prep_entriesappend
 SizeOf(x) == IF KnownSize(x.kind) THEN x.size ELSE -1
@@ -50,16 +53,17 @@ Front(s) == SubSeq(s, 1, Len(s) - 1)
 Present(x) == {i \in 1..NExt : x.sc[i].p}
 
 Init == InitCase /\ st = "new" /\ out = [names |-> <<>>, sblocks |-> <<>>, views |-> "", len |-> "",
-                                            tags |-> [stripped |-> FALSE, lastblank |-> FALSE, printable |-> TRUE]]
+                                            tags |-> [stripped |-> FALSE, lastblank |-> FALSE, printable |-> TRUE, capped |-> FALSE]]
 Compute ==
     /\ st = "new" /\ st' = "done" /\ UNCHANGED c
     /\ out' = [names |-> CodeBlockNames(c.kind, c.sc),
-               sblocks |-> SidecarBlocks(c.sc),
+               sblocks |-> SidecarBlocks(c.kind, c.sc),
                views |-> ViewsLine(CodeMime(c.kind, c.ext), SizeOf(c)),
                len |-> LenHeader(SizeOf(c)),
                tags |-> [stripped |-> Stripped(c.kind, c.ext),
                          lastblank |-> \E i \in Present(c) : LastBlank(c.sc[i].lines),
-                         printable |-> \A i \in Present(c) : Printable(c.sc[i].lines)]]
+                         printable |-> \A i \in Present(c) : Printable(c.sc[i].lines),
+                         capped |-> \E i \in Present(c) : Capped(c.kind, c.sc[i].lines)]]
 Next == Compute
 Spec == Init /\ [][Next]_mcvars
 
@@ -75,7 +79,18 @@ M_ContentPrefixed == Done => \A k \in 1..Len(out.sblocks) : \A j \in 1..Len(out.
                                 TX!StartsWith(out.sblocks[k].lines[j], " ")
 M_SidecarExact == Done => \A k \in 1..Len(PresentSeq) :
                      LET s == c.sc[PresentSeq[k]] IN
-                     (Printable(s.lines) /\ ~LastBlank(s.lines)) => out.sblocks[k].lines = Prefixed(RefLines(s.lines))
+                     (Printable(s.lines) /\ ~LastBlank(s.lines) /\ ~Capped(c.kind, s.lines))
+                        => out.sblocks[k].lines = Prefixed(RefLines(s.lines))
+\* the named deviation Cap20K, stated exactly (recorded finding C15-sidecar-capped-20k): a proper prefix of the lines
+M_Cap20K == Done => \A k \in 1..Len(PresentSeq) :
+                     LET s == c.sc[PresentSeq[k]] IN
+                     Capped(c.kind, s.lines) =>
+                        /\ Len(out.sblocks[k].lines) < Len(s.lines)
+                        /\ out.sblocks[k].lines = SubSeq(Prefixed(RefLines(s.lines)), 1, Len(out.sblocks[k].lines))
+                        /\ TotalLen(SubSeq(s.lines, 1, Len(out.sblocks[k].lines))) >= Hint
+\* contents at or beyond the hint are only the well-shaped ones the line-level shortcut of CodeLinesOf is valid for
+M_BigShape == \A i \in Present(c) : TotalLen(c.sc[i].lines) >= Hint =>
+                     Printable(c.sc[i].lines) /\ ~LastBlank(c.sc[i].lines) /\ c.sc[i].nl
 \* the named deviation, stated exactly (recorded finding C15-last-blank-line-lost)
 M_LastBlankLineLost == Done => \A k \in 1..Len(PresentSeq) :
                      LET s == c.sc[PresentSeq[k]] IN
